@@ -9,6 +9,10 @@ import ModbusVerif.Spec.RoleSpec
 import ModbusVerif.Model.Lifecycle
 import ModbusVerif.Model.Heap
 import ModbusVerif.Model.Tls
+import ModbusVerif.Model.IoTrace
+import ModbusVerif.Model.System
+import ModbusVerif.Spec.RegFile
+import ModbusVerif.Model.Cli
 /-
   mbmodel: line protocol. One operation per input line, one canonical output line.
   Unknown or malformed lines print `bad-op` (never a default).
@@ -98,6 +102,45 @@ def endianNum : Endian → Nat | .big => 1 | .little => 2 | .invalid => 0
 def wordNum : WordOrder → Nat | .highFirst => 1 | .lowFirst => 2 | .invalid => 0
 
 def strHex (s : String) : String := hex (s.toUTF8.toList.map (fun b => BitVec.ofNat 8 b.toNat))
+
+def parseCmd (t : String) : Option System.Cmd :=
+  match (t.trimAscii.toString.splitOn " ").filter (· ≠ "") with
+  | ["U", u] => u.toNat?.map (fun n => .setUnit (BitVec.ofNat 8 n))
+  | ["E", e, w] => do pure (.setEnc (← e.toNat?) (← w.toNat?))
+  | toks => (parseOp toks).map .op
+
+def showCmdResult (c : System.Cmd) (r : Option (Except Err Client.Val)) : String :=
+  match c, r with
+  | .op _, r => showResult r
+  | _, some (.ok _) => "set"
+  | _, some (.error e) => "err:" ++ errName e
+  | _, none => "panic"
+
+/-- one CLI invocation end to end on the models: argument grammar → run list → client calls through the
+    closed-loop system model (fresh memory) → printed lines. Output: `refused` | `nothing` |
+    `go | calls=… | out=line␞line…` (␞ = U+001E between printed lines; errors print `!<err>`). -/
+def cliRun (e w : String) (u : Nat) (args : List String) : String :=
+  match Cli.invoke { endianness := e, wordOrder := w, unitId := u, args := args } with
+  | .usage _ => "refused-usage"
+  | .refused _ => "refused"
+  | .nothingToDo => "nothing"
+  | .go en wo unit ops =>
+    let cfg0 : Client.Cfg := { kind := .tcp, unitId := unit, endian := en, word := wo }
+    let st0 : Client.TState := { lastTxn := 0, pending := [] }
+    let (_, _, _, calls, out) := ops.foldl (fun (acc : Client.Cfg × Client.TState × System.Mem × List Server.HReq × List String) o =>
+      let (cfg, st, mem, calls, out) := acc
+      let cfg' := { cfg with unitId := Cli.nextUnit cfg.unitId o }
+      match Cli.execute o with
+      | [c] =>
+        let (r, _, st', mem') := System.exec System.memHandler cfg' st mem (.op c)
+        let newCalls := System.stepCalls System.memHandler cfg' st mem c
+        let lines := match r with
+          | some (.ok v) => Cli.printedLines o v
+          | some (.error er) => ["!" ++ errName er]
+          | none => ["!panic"]
+        (cfg', st', mem', calls ++ newCalls, out ++ lines)
+      | _ => (cfg', st, mem, calls, out)) (cfg0, st0, System.Mem.init, [], [])
+    "go | calls=" ++ ";".intercalate (calls.map showHReq) ++ " | out=" ++ "\u001e".intercalate out
 
 def step (line : String) : String :=
   match line.trimAscii.toString.splitOn " " with
@@ -270,6 +313,34 @@ def step (line : String) : String :=
       else if side = "client" then (if Tls.clientHandshakeOk p then "served" else "refused")
       else "bad-op"
     | _, _ => "bad-op"
+  | ["iotrace", "mbap", t, l, txn, stream] =>
+    match t.toNat?, l.toNat?, u16? txn, unhex stream with
+    | some t, some l, some x, some s => Io.showTrace (Io.mbapTrace t l x s)
+    | _, _, _, _ => "bad-op"
+  | ["iotrace", "rtu", t, rate, l, ending, stream] =>
+    match t.toNat?, rate.toNat?, l.toNat?, endingOfName ending, unhex stream with
+    | some t, some r, some l, some e, some s => Io.showTrace (Io.rtuTrace t r l 0 1 s e)
+    | _, _, _, _, _ => "bad-op"
+  | "sys" :: kind :: rest =>
+    -- closed loop: real-client model against real-server model with the memory handler; then the
+    -- abstract register file on the same commands (property oracle)
+    match kindOfName kind, ((" ".intercalate rest).splitOn ";").mapM parseCmd with
+    | some k, some cmds =>
+      let cfg : Client.Cfg := { kind := k, unitId := 1, endian := .big, word := .highFirst }
+      let st : Client.TState := { lastTxn := 0, pending := [] }
+      let r := System.run System.memHandler cfg st System.Mem.init cmds
+      let calls := System.runCalls System.memHandler cfg st System.Mem.init cmds
+      let spec := Spec.regfileRun cfg System.Mem.init cmds
+      let specCalls := Spec.regfileCalls cfg cmds
+      ";".intercalate ((cmds.zip r.1).map (fun (c, x) => showCmdResult c x)) ++ " | calls=" ++
+        ";".intercalate (calls.map showHReq) ++ " spec=" ++
+        ";".intercalate ((cmds.zip spec.1).map (fun (c, x) => showCmdResult c (some x))) ++ " | calls=" ++
+        ";".intercalate (specCalls.map showHReq)
+    | _, _ => "bad-op"
+  | "cli" :: e :: w :: u :: args =>
+    match u.toNat? with
+    | some u => cliRun e w u args
+    | none => "bad-op"
   | ["crc", data] =>
     match unhex data with
     | some d => hex (Crc.crc16 d) ++ " ref=" ++ hex (le16 (Crc.refCrc d))
